@@ -73,13 +73,16 @@ def val_for(r, cls, name, present):
     if n == 'values':
         out = []
         prev_num = False
-        for _ in range(r.choice([0, 1, 2, 3]) if present else 0):
-            c = r.choice(['s', 'd', 'b', 'n', 'a', 'acc'])
-            if c in ('n', 'a') and prev_num and False:
-                c = 's'
-            out.append({'s': r.choice(docs.STRINGS), 'd': datetime.date(2020, 1, 2), 'b': r.random() < 0.5,
-                        'n': D(r.choice(['1', '-2', '3.5'])), 'a': models.Amount.from_value(D(r.choice(['1', '-4'])), 'USD'),
-                        'acc': models.Account.from_value(r.choice(docs.ACCOUNTS))}[c])
+        for _ in range(r.choice([0, 1, 2, 3, 4]) if present else 0):
+            c = r.choice(['s', 'd', 'b', 'n', 'a', 'acc', 'n', 'a', 'ne'])
+            if c == 'ne':
+                # a number given as an expression node (any shape the grammar allows, e.g. ending in a parenthesis)
+                v = edits.P().parse(r.choice(['(1 + 2)', '2 * (1 + 3)', '10 / (2 + 3)', '-(4)', '7 - 2', '(3)', '+5 * 2']), models.NumberExpr)
+            else:
+                v = {'s': r.choice(docs.STRINGS), 'd': datetime.date(2020, 1, 2), 'b': r.random() < 0.5,
+                     'n': D(r.choice(['1', '-2', '3.5', '-0.5'])), 'a': models.Amount.from_value(D(r.choice(['1', '-4'])), 'USD'),
+                     'acc': models.Account.from_value(r.choice(docs.ACCOUNTS))}[c]
+            out.append(v)
             prev_num = c == 'n'
         return out
     if n == 'directives':
@@ -182,7 +185,8 @@ def run(ctx, per_class_subsets, draws):
         if not hasattr(cls, 'from_value') or cls is models.File:
             continue
         for present, sig in construct_cases(r, cls, per_class_subsets):
-            for _ in range(draws):
+            # value sequences of custom entries are a language of their own (disambiguation of adjacent numbers): more draws
+            for _ in range(draws * 25 if cls is models.Custom and present.get('values') else draws):
                 args = build(r, cls, present, sig)
                 desc = describe(args)
                 try:
